@@ -296,7 +296,7 @@ typedef struct {
    int vad_active;   /* some SILK frame of channel 0 had VAD flag 1 */
    int gray, lowb;
    int dtx_on, q;
-   int bust;         /* 2-byte "PLC frame": SILK exceeded its bit budget (src/opus_encoder.c:2432-2441) */
+   int bust;         /* 2-byte "PLC frame": SILK exceeded its bit budget (src/opus_encoder.c:2448-2457) */
 } callrec;
 
 static void read_state(OpusEncoder *st, int *s)
@@ -570,7 +570,7 @@ static void do_run(uint64_t subseed, int tier_long, const runcfg *preset)
          int sil = 0; for (k = 0; k < vlogn; k++) if (vlog[k].kind == 1) { sil = vlog[k].is_silence; break; }
          if (cr->valid0 == 0 && !sil) for (k = 0; k < vlogn; k++) if (vlog[k].kind == 1 && vlog[k].valid) { S.bad_coh++; if (!g_tie && g_verbose) printf("# incoherent-valid %s call %d\n", g_input, i); break; }
       }
-      /* 2-byte "PLC frame" of a single-frame packet: SILK exceeded its bit budget (src/opus_encoder.c:2443-2452).
+      /* 2-byte "PLC frame" of a single-frame packet: SILK exceeded its bit budget (src/opus_encoder.c:2448-2457).
          It is the inner encoder's output, not a DTX return: a single-frame DTX packet has one byte. */
       cr->bust = (ret == 2 && pkt[1] == 0 && cr->nsub == 1 && !cr->lowb && vlogn >= 2 && vlog[vlogn - 2].kind == 0 && !vlog[vlogn - 2].nbytes_zero
                   && !(cr->post[0] > cr->pre[0]));
@@ -639,7 +639,7 @@ static void do_run(uint64_t subseed, int tier_long, const runcfg *preset)
             if (tiny) witness("dtx_off_no_tiny", subseed, i, "DTX disabled, budget not in the low-budget class, yet len=%d", cr->len);
             if (cr->bust) {
                g_bust = 1;
-               if (!bust_reported) witness("dtx_off_no_tiny", subseed, i, "DTX disabled, buffer %d bytes and bitrate allow far more than three bytes, yet len=2 (TOC + 00: SILK exceeded its bit budget, src/opus_encoder.c:2443-2452); %d such packets in this run", c.out_bytes, nbust);
+               if (!bust_reported) witness("dtx_off_no_tiny", subseed, i, "DTX disabled, buffer %d bytes and bitrate allow far more than three bytes, yet len=2 (TOC + 00: SILK exceeded its bit budget, src/opus_encoder.c:2448-2457); %d such packets in this run", c.out_bytes, nbust);
                bust_reported = 1;
                g_bust = 0;
             }
